@@ -68,9 +68,44 @@ fn canon_fir(model: &Pkt, mut b: Vec<u8>) -> Vec<u8> {
     b
 }
 
+/// "What was configured" is the model state: the canonical construction must itself say exactly that (every added
+/// block / source / chunk / entry present once and in order, the last value of every setter), or a builder that
+/// drops or merges something would agree with itself in every history. NACK: the decoded set; everything else: the
+/// reference encoder's image (FIR up to entry order).
+fn canonical_says_the_configuration(model: &Pkt, canonical: &[u8]) -> bool {
+    if !crate::refmodel::repr::representable(model) {
+        return true;
+    }
+    match model {
+        Pkt::Fb { fci: Fci::Nack(set), pad, .. } => {
+            let end = canonical.len().saturating_sub(*pad as usize);
+            if end < 12 {
+                return false;
+            }
+            let mut got = crate::refmodel::read::nack_unpack(&canonical[12..end]);
+            let mut want = set.clone();
+            got.sort_unstable();
+            want.sort_unstable();
+            want.dedup();
+            got == want
+        }
+        _ => canon_fir(model, crate::refmodel::wire::encode(model)) == canonical,
+    }
+}
+
 fn judge(l: &mut Local, family: &str, hist: &dyn Fn() -> String, model: &Pkt, wrap: Wrap, got: Result<Vec<u8>, WErr>) {
     l.validated += 1;
     let want = canonical(model).map(|b| canon_fir(model, b));
+    if let Ok(w) = &want {
+        if wrap == Wrap::None && !canonical_says_the_configuration(model, w) {
+            l.violation(
+                format!("canonical-construction-is-not-the-configuration:{}", family),
+                || format!("{} [canonical]", hist()),
+                || format!("final configuration {} is built as {} but the configuration reads {}", model.short(), hex_short(w), hex_short(&crate::refmodel::wire::encode(model))),
+            );
+            return;
+        }
+    }
     let got = got.map(|b| canon_fir(model, b));
     if got == want {
         l.hit("history agrees with canonical construction");
@@ -502,7 +537,7 @@ pub fn c20(ctx: &mut Ctx) {
     ctx.run_space("sr-histories", seq_count(12, d_set), |idx, l| {
         let seq = seq_decode(12, idx);
         let (mut pad, mut ntp, mut rtp, mut pc, mut oc, mut blocks) = (0u8, 0u64, 0u32, 0u32, 0u32, Vec::new());
-        let mut d = String::from("SenderReport::builder(0x51)");
+        let mut d = String::from("SenderReport::builder(0xFFFF_FF00)");
         for &op in &seq {
             let v = op % 2;
             match op / 2 {
@@ -532,9 +567,9 @@ pub fn c20(ctx: &mut Ctx) {
                 }
             }
         }
-        let model = Pkt::Sr { ssrc: 0x51, ntp, rtp, pc, oc, blocks, pad };
+        let model = Pkt::Sr { ssrc: 0xFFFF_FF00, ntp, rtp, pc, oc, blocks, pad };
         all_wraps(l, "SenderReportBuilder", &|| d.clone(), &model, &|| {
-            let mut b = SenderReport::builder(0x51);
+            let mut b = SenderReport::builder(0xFFFF_FF00);
             for &op in &seq {
                 let v = (op % 2) as usize;
                 b = hp(match op / 2 {
@@ -553,7 +588,7 @@ pub fn c20(ctx: &mut Ctx) {
     ctx.run_space("rr-histories", seq_count(4, d_set + 1), |idx, l| {
         let seq = seq_decode(4, idx);
         let (mut pad, mut blocks) = (0u8, Vec::new());
-        let mut d = String::from("ReceiverReport::builder(0x52)");
+        let mut d = String::from("ReceiverReport::builder(0x0101)");
         for &op in &seq {
             match op {
                 0 | 1 => {
@@ -566,9 +601,9 @@ pub fn c20(ctx: &mut Ctx) {
                 }
             }
         }
-        let model = Pkt::Rr { ssrc: 0x52, blocks, pad };
+        let model = Pkt::Rr { ssrc: 0x0101, blocks, pad };
         all_wraps(l, "ReceiverReportBuilder", &|| d.clone(), &model, &|| {
-            let mut b = ReceiverReport::builder(0x52);
+            let mut b = ReceiverReport::builder(0x0101);
             for &op in &seq {
                 b = hp(match op {
                     0 => b.padding(0),
@@ -707,6 +742,77 @@ pub fn c20(ctx: &mut Ctx) {
                 all_wraps(l, "NackBuilder", &hist, &model, &|| TransportFeedback::builder_owned(build::nack_builder_p(&seq, probing())).sender_ssrc(3).media_ssrc(4));
             }
         });
+    }
+    // Nesting equivalence: a compound builder is itself a writer and may be a member; however a member list is
+    // bracketed into nested compound builders, the bytes are those of the flat list
+    {
+        let menu: Vec<Member> = vec![
+            Member::Plain(Pkt::Bye { ssrcs: vec![0x0A0B_0C0D], reason: String::new(), pad: 0 }),
+            Member::Plain(Pkt::Rr { ssrc: 0x0102_0304, blocks: vec![gens::sentinel_rb(0, 0)], pad: 0 }),
+            Member::Plain(Pkt::App { ssrc: 7, subtype: 3, name: "name".into(), data: vec![1, 2, 3, 4], pad: 0 }),
+            Member::Wrapped(Pkt::Sdes { chunks: vec![Chunk { ssrc: 0x0000_0100, items: vec![Item::new(1, b"ab")] }], pad: 0 }),
+            Member::Plain(Pkt::Fb { kind: Kind::Transport, sender: 0x1122_3344, media: 0x5566_7788, fci: Fci::Nack(vec![100, 101]), pad: 0 }),
+        ];
+        let k = menu.len() as u64;
+        ctx.bound("nesting", "member lists of length 1..=3 over 5 packets (the last one padded or not) x 6 bracketings into nested compound builders");
+        ctx.run_space("compound-nesting-equivalence", (seq_count(k, 3) - 1) * 2, |idx, l| {
+            let seq = seq_decode(k, idx / 2 + 1);
+            let mut ms: Vec<Member> = seq.iter().map(|&i| menu[i as usize].clone()).collect();
+            if idx % 2 == 1 {
+                // padding on the last member (legal)
+                let last = ms.len() - 1;
+                if let Member::Plain(p) | Member::Wrapped(p) = &mut ms[last] {
+                    p.set_pad(8);
+                }
+            }
+            l.evals += 1;
+            l.states += 1;
+            l.sample(|| format!("nestings of {} members", ms.len()));
+            let flat = match guard::catch(|| bytes_of(&build::compound_builder(&ms))) {
+                Ok(f) => f,
+                Err(pi) => {
+                    l.subject_panic("nesting:flat", &pi, || format!("{:?}", ms));
+                    return;
+                }
+            };
+            if let Ok(b) = &flat {
+                l.nontrivial(crate::engine::run::fp_bytes(b));
+            }
+            let n = ms.len();
+            let mut shapes: Vec<(&str, Vec<Member>)> = vec![("[[all]]", vec![Member::Nested(ms.clone())]), ("[[a],[b],..]", ms.iter().map(|m| Member::Nested(vec![m.clone()])).collect())];
+            if n >= 2 {
+                let mut front = vec![Member::Nested(ms[..n - 1].to_vec())];
+                front.push(ms[n - 1].clone());
+                shapes.push(("[[a,..],z]", front));
+                let mut back = vec![ms[0].clone()];
+                back.push(Member::Nested(ms[1..].to_vec()));
+                shapes.push(("[a,[..,z]]", back));
+                shapes.push(("[[[a,..]],z]", vec![Member::Nested(vec![Member::Nested(ms[..n - 1].to_vec())]), ms[n - 1].clone()]));
+                // an empty compound contributes nothing - in front; behind a padded last member it would make that
+                // member a non-last one, which is a different configuration
+                shapes.push(("[[],a,..,z]", std::iter::once(Member::Nested(vec![])).chain(ms.iter().cloned()).collect()));
+            }
+            for (name, shape) in shapes {
+                l.transitions += 1;
+                l.validated += 1;
+                match guard::catch(|| bytes_of(&build::compound_builder(&shape))) {
+                    Err(pi) => l.subject_panic("nesting", &pi, || format!("{} of {:?}", name, ms)),
+                    Ok(got) => {
+                        if got == flat {
+                            l.hit("nesting agrees with the flat list");
+                        } else {
+                            l.violation(
+                                "nesting-dependent-bytes:CompoundBuilder",
+                                || format!("{} of {:?}", name, ms),
+                                || format!("flat: {} nested: {}", flat.as_ref().map(|b| hex_short(b)).unwrap_or_else(|e| format!("{:?}", e)), got.as_ref().map(|b| hex_short(b)).unwrap_or_else(|e| format!("{:?}", e))),
+                            );
+                            return;
+                        }
+                    }
+                }
+            }
+        });
+        ctx.require_hit("nesting agrees with the flat list");
     }
     // Flavour equivalence over whole configuration spaces: every configuration of the round-trip generators
     // (C03-C05; thorough: C02 as well) is realised in all API flavours - owned or borrowed variants of every
